@@ -78,6 +78,9 @@ func runSched(property string, u fw.Unit, scenarios []schedScenario) fw.Result {
 	if budget == 0 {
 		budget = 1500
 	}
+	if len(sp.Items) == 1 && len(sp.Items[0].C) == 0 && budget > 3000 {
+		budget = 3000 // root unit: hand the frontier to the other worker processes early
+	}
 	deadline := time.Now().Add(20 * time.Second)
 	var res fw.Result
 	res.Extra = map[string]int64{}
